@@ -4,6 +4,7 @@ CONSTANTS
   BaseSeq <- NoSeq
   WrapSeq <- NoSeq
   RenSeq <- NoSeq
+  DocSet = {}
   Family = "all"
   MaxFields = 0
   MaxDepth = 0
